@@ -128,6 +128,7 @@ pub fn std_sweep(tier: Tier, flavor: Flavor) -> Vec<Part> {
         let sets: Vec<u8> = if flavor == Flavor::RoundTrip { vec![NO_ASCII, 0x02, 0x10] } else { vec![NO_ASCII, 0x02, 0x04, 0x08, 0x10, 0x20, 0x06, 0x18, 0x30] };
         parts.push(Part { name: "ES-M multi-run inputs x small single lists x restricted mode sets", family: gen::es_i(tier.pick(14, 24), tier.pick(4, 6)), cfgs: gen::cfgs(&sets, &singles, &on, &off) });
     }
+    parts.push(Part { name: "ES-Q Base256 run ending at a symbol capacity + tail", family: gen::es_q(), cfgs: gen::cfgs(&[ALL_MODES, 0x21], &[d, a], &on, &off) });
     parts.push(Part { name: "ES-J2 long runs + EDIFACT middle + suffix", family: gen::es_j2(), cfgs: gen::cfgs(&[ALL_MODES, 0x31], &[d], &on, &off) });
     parts.push(Part {
         name: "ES-F2 macro token sequences",
